@@ -17,12 +17,12 @@ LEVEL_TEXT = ('partial. Lean 4 theorems, for all cubes/patterns/oversampling/fra
               'non-multiples are broadcast to an empty result by NumPy: modelled, outside the quantifier) and assigns to sub-pixel (i,j) the colour '
               'pattern[(i/os)%d][(j/os)%d]; equal QEs reproduce the monochrome result and the channels sum to the flat image; DN = max 0 (floor '
               '(gain polynomial at the clipped count)) for the four gain forms with the exponents of the source power cube, steps in source order, never rounded up, never above the digitised capacity for curves non-decreasing on [0, cap] (adc_le_at_cap), all saturated pixels read the same DN (adc_saturated_pixels_agree), refusal of a Bayer image iff its size is not a multiple (>= 2 rows/cols), non-negative, monotone for every gain curve that '
-              'is non-decreasing on [0, cap], warning iff a pixel exceeds capacity (condition hand-modelled). Hand model checked against lentil.detector on exact dyadic data.')
+              'is non-decreasing on [0, cap], warning iff a pixel exceeds capacity (condition hand-modelled); the Bayer channel wiring (which efficiency and which letter each channel uses, what is summed) is read off the source and proved equal to the model (bayer_flat_follows_source, bayer_separate_follows_source). Hand model checked against lentil.detector on exact dyadic data.')
 LEVEL_NOTE = ('partial: "input frame untouched" and "requested dtype" are observed by the correspondence (read-only, snapshotted '
               'frames; dtype compared) and by the regenerated effect table of C10, not proved about NumPy; a non-flat Spectrum QE agrees with a '
               'vector only through the sampled correspondence (the theorem covers flat spectra and unit invariance); float rounding is not '
               'modelled (test data is dyadic so float64 is exact). The Bayer tile/repeat bookkeeping, the adc gain dispatch, power-cube loop, einsum '
-              'subscripts and step order are REGENERATED from detector.py (Gen/DetectorIdx.lean): mosaic_*, adc_follows_source_steps (the model digitisation is RUN through the regenerated step list), adc_matches_source (a pin of the key expressions), power_cube_exponent, gain_dispatch_matches_model depend on them. NaN/inf frames are not generated (outside the model).')
+              'subscripts and step order are REGENERATED from detector.py (Gen/DetectorIdx.lean), and so is the channel wiring of collect_charge_bayer (per channel: letter of np.where(bayer_pattern == ., 1, 0) behind its mosaic, einsum subscripts, efficiency variable; the terms of the flatten=True sum and the order of the flatten=False tuple: Gen.bayerChannels/bayerFlattenTerms/bayerSeparateOrder) — bayer_flat_follows_source and bayer_separate_follows_source prove that the image computed THROUGH that table is the model bayerFlat / (R, G, B) channel list all Bayer theorems are about: mosaic_*, adc_follows_source_steps (the model digitisation is RUN through the regenerated step list), adc_matches_source (a pin of the key expressions), power_cube_exponent, gain_dispatch_matches_model depend on them. NaN/inf frames are not generated (outside the model).')
 TECHNIQUE = 'Lean 4 proof (omega/Int.ediv-emod, ordered-field algebra, Int.floor) over a hand model with exact differential correspondence'
 GEN = ['DetectorIdx', 'Effects', 'Extent', 'FieldDispatch', 'FieldIdx', 'FieldMerge', 'Units']     # every Gen module the model, lemmas, theorems and driver ops import (transitively)
 OPS = ['C16']
